@@ -36,37 +36,42 @@
       C03_data_or_errors          no (or null) data => at least one error
       C03_parsed_positions_distinct   the parser's half of C01's hypothesis, across the conversion
       C03_pipeline_order_independent  the response does not depend on Go's map iteration order
+      C03_pipeline_response       ... a response, for every text with positions below 2^24 / 2^32 (round 5)
 
-    WHAT IS PARTIAL, and why.
-    - C01's totality theorem needs [doc_ok] ("what validation guarantees", as an execution over
-      types).  That the validator model establishes it is NOT proved (C04 has not proved
-      [validate_ok_doc_ok], see the header of Properties/C01.v).  The composed model therefore
-      EVALUATES [doc_ok] (and the size half of [doc_positions_okb]) and answers
-      [PContractBroken] when it fails; the totality theorems hold unconditionally because of that
-      check, and the correspondence check reports [PContractBroken] as an oracle failure on every
-      case (so the gap is tested on every run, not assumed).  Half of the obligation IS proved
-      ([C03_validated_type_conditions_composite]: type conditions of an accepted text are composite,
-      so the executor's panic("unexpected fragment type") is unreachable); the other half (typing of
-      the collected fields; since round 4 exactly the invariant [validate_establishes_invariant] with
-      its two missing lemmas, spelled out below; root type, argument coercion and acyclicity are proved) is the explicit
-      premise of [C03_validate_establishes_doc_ok_partial] / [C03_pipeline_response_partial]: with
-      it, every request gets a response.
+    WHAT WAS PARTIAL, and how it was closed (round 5).
+    - C01's totality theorem needs [doc_ok_nodirs] ("what validation guarantees", as an execution
+      over types: [doc_ok] without the conjunct "every @skip/@include condition has a boolean
+      value").  The composed model EVALUATES it (and the size half of [doc_positions_okb]) and
+      answers [PContractBroken] when it fails; the totality theorems hold unconditionally because
+      of that check, and the correspondence check reports [PContractBroken] as an oracle failure.
+      Since round 5 that the validator model establishes it is PROVED:
+      [C03_validate_establishes_invariant] (Pipe/MergeBridge.v, Pipe/InvariantBridge.v) gives the
+      n-free invariant Q of C01_doc_ok_nodirs_acyclic from C04's theorems — fields defined on every
+      possible object type (C04_defined_on_possible), merge soundness of the validator as it is
+      (C04_accepted_merge_sound, with its unfolding lemma), 5.5.1.1, valid_root — across both
+      conversions; [C03_validate_establishes_doc_ok] and [C03_pipeline_response] follow without
+      premise: every request whose positions fit line 2^24 / column 2^32 gets a response, and
+      [PContractBroken CDocOk] is unreachable.  Hypotheses on the two encodings of the schema, all
+      decidable and evaluated by the check on every composed case: [schemas_agree VS ES],
+      [es_wf ES] (type names are map keys, union members and root types are object types, field
+      types are output types, an implementing field is covariant with the interface's), C04's
+      [schema_ok], [schema_impls_ok], [schema_ifaces_ok] ([vschema_wf]).
     - C01's [doc_ok] contains the hypothesis that every @skip/@include condition has a boolean value.
       A validated request can violate it (a nullable Boolean variable with a default, given null:
       the directive's argument cannot be coerced, the selection is left out with an error).  Since
-      round 5 the composed model checks C01's [doc_ok_nodirs] ([doc_ok] without that conjunct) and
-      C01's dirs-free theorems (C01_exec_total_nodirs, C01_exec_data_finite_nodirs,
-      C01_doc_ok_nodirs_acyclic) cover such requests: there is no [PUnevaluable] outcome and no
-      [request_evaluable] hypothesis any more.  Only [C03_async_resolvers_same_data] keeps
-      [dirs_evaluable] as a hypothesis (C02's bridge theorem is stated under the full [doc_ok]).
+      round 5 the composed model checks C01's [doc_ok_nodirs] and C01's dirs-free theorems
+      (C01_exec_total_nodirs, C01_exec_data_finite_nodirs, C01_doc_ok_nodirs_acyclic) cover such
+      requests: there is no [PUnevaluable] outcome and no [request_evaluable] hypothesis any more.
+      Only [C03_async_resolvers_same_data] keeps [dirs_evaluable] as a hypothesis (C02's bridge
+      theorem is stated under the full [doc_ok]).
     - Outside the composition: the serialiser itself (encoding/json; [json_finite] is the condition under
       which it accepts a number), stack depth of the Go runtime.  For these the glue theorems of
       round 1 (…_partial below) and the hostile stream remain the evidence. *)
 From Coq Require Import List NArith.
 From ApiFu Require Import Base.Sexp.
 From ApiFu Require Syn.Ast Syn.ParserModel Syn.FrontEnd Vld.Ast Vld.ValidatorModel Vld.ProofsCommon Val.Values ExeA.ArgData ExeA.ArgArgs ExeA.ArgModel ExeA.ArgSpec ExeA.ArgHyps.
-From ApiFu Require Vld.MemoEquiv.
-From ApiFu Require Import Pipe.PipelineModel Pipe.PipelineProofs Pipe.Convert Pipe.Compose Pipe.SchemaAgree Pipe.PositionsProofs Pipe.FieldPositions Pipe.ComposeProofs Pipe.CondsProofs Pipe.TypingProofs Pipe.CostCompose Pipe.CostComposeProofs Pipe.AcyclicProofs Pipe.InvariantProofs Pipe.SubscribeCompose Pipe.SubscribeProofs Pipe.AsyncProofs.
+From ApiFu Require Vld.MemoEquiv Vld.ProofsSubscription.
+From ApiFu Require Import Pipe.PipelineModel Pipe.PipelineProofs Pipe.Convert Pipe.Compose Pipe.SchemaAgree Pipe.PositionsProofs Pipe.FieldPositions Pipe.ComposeProofs Pipe.CondsProofs Pipe.TypingProofs Pipe.CostCompose Pipe.CostComposeProofs Pipe.AcyclicProofs Pipe.InvariantProofs Pipe.SetPositions Pipe.MergeBridge Pipe.InvariantBridge Pipe.SubscribeCompose Pipe.SubscribeProofs Pipe.AsyncProofs.
 From ApiFu Require Fut.Plan Fut.ExecAsync Fut.AsyncRun Fut.FutSpec Fut.FutProofs Fut.BridgeC01.
 Import ListNotations.
 
@@ -221,8 +226,16 @@ Theorem C03_accepted_acyclic : forall pi VS F bs d o vv,
   ExeA.ArgHyps.acyclic_frags (ExeA.ArgData.doc_of (exe_of_syn d) o vv).
 Proof. exact accepted_acyclic. Qed.
 
-(** NOT PROVED — the remaining obligation, exactly the n-free invariant Q of C01_doc_ok_acyclic,
-    split into the two lemmas that are missing (Pipe/InvariantProofs.v):
+(** the other positional hypothesis of C04's theorems about addFieldSelections: the selection sets of
+    a parsed text open at pairwise distinct positions (the opening braces are tokens the tree
+    records, C06's [recorded_layout]; distinct tokens start at distinct positions, C07) *)
+Theorem C03_parsed_set_positions_distinct : forall bs d es,
+  Syn.FrontEnd.parse_document_bytes bs = Syn.ParserModel.Out (Some d) es ->
+  Vld.ProofsSubscription.doc_set_positions_distinct (vld_of_syn d).
+Proof. exact parsed_set_positions_distinct. Qed.
+
+(** PROVED (round 5) — what was the remaining obligation: the n-free invariant Q of
+    C01_doc_ok_nodirs_acyclic (Pipe/InvariantProofs.v):
     [validate_establishes_invariant pi VS F ES] :=
       forall bs d opname o vv rt,
         parse_and_validate_order pi VS F bs = FAccepted d ->
@@ -230,39 +243,54 @@ Proof. exact accepted_acyclic. Qed.
         let D := doc_of (exe_of_syn d) o vv in  let E := env_of_vars vv in
         s_root_type ES (op_kind D) = Some rt ->
         exists Q, Q rt (op_sels D) /\ fields_defined_on ES D E Q /\ merge_sound ES D E Q.
-    [Q ot sels]: "[sels] is a validated selection list for an object of type [ot]".
     [fields_defined_on] — THE POSSIBLE-OBJECT-TYPE STEP: for [Q ot sels], CollectFields(ot, sels) is
       defined and the first field node of every group is __typename, a meta-field of the query
-      root, or a field defined ON [ot] with an output type (C04 has "defined on the static parent
-      type": C04_validate_ok_doc_ok_partial (f); missing: from the parent type to every possible
-      object type, through the type conditions CollectFields evaluates);
+      root, or a field defined ON [ot] with an output type;
     [merge_sound] — MERGE SOUNDNESS (rule 5.3.2): for a group of a composite field type the MERGED
       sub-selections of all its field nodes satisfy [Q] again for every possible object type of the
-      FIRST node's field type (the C04 builder's C04_accepted_merge_sound).
-    Nothing else is open: acyclicity / levels / fuel (above, with C01_doc_ok_acyclic), type
-    conditions (a), root type (c), argument coercion (g) are proved.  The premise is exactly as
-    strong as needed: [doc_ok_nodirs] itself yields such a Q (C03_invariant_from_doc_ok).
-    The composed model evaluates [doc_ok_nodirs] on every run instead (outcome [PContractBroken CDocOk],
-    an oracle failure of the check).  With it, [validate_establishes_doc_ok] follows ... *)
-Theorem C03_validate_establishes_doc_ok_partial : forall pi VS F ES,
-  Vld.ProofsCommon.order_ok pi -> schemas_agree VS ES = true -> cost_schema_accepted ES = true ->
-  validate_establishes_invariant pi VS F ES -> validate_establishes_doc_ok pi VS F ES.
-Proof. exact doc_ok_from_invariant. Qed.
+      FIRST node's field type.
+    The witness is [MergeBridge.Qv ot sels]: [ot] is an object type and [sels] is the concatenation
+    of selection sets of the parsed document, each written beneath a scope (TypeInfo's) of which
+    [ot] is a possible type, any two of them merge-checked together by the validator
+    (addFieldSelections of one, then of the other, gives a map that is [MergeOK]).
+    - the step from CollectFields of the executor (type conditions evaluated against [ot],
+      @skip/@include, visited fragments) to the validator's addFieldSelections (everything, once):
+      what the former collects the latter files, with the parent type and position of the set it
+      is written in (Pipe/CollectEntries.v: C04_collect_complete strengthened from keys to entries);
+    - two nodes under one response key whose parent types both have [ot] as a possible type
+      [may_overlap]: C04_merge_ok_unfold gives the same field name and the merge-checked pair of
+      sub-selection sets;
+    - the possible object types of the field's type on [ot] are possible types of the field's type
+      on the parent type of the selection set: covariance of implementing fields ([es_wf]). *)
+Theorem C03_validate_establishes_invariant : forall pi VS F ES,
+  Vld.ProofsCommon.order_ok pi -> schemas_agree VS ES = true -> es_wf ES = true -> vschema_wf VS = true ->
+  validate_establishes_invariant pi VS F ES.
+Proof. exact validate_establishes_invariant_proved. Qed.
 
+(** hence an accepted text satisfies C01's [doc_ok_nodirs] with the fuel and level bound the composed
+    model evaluates, for every selectable operation and all variable values: the outcome
+    [PContractBroken CDocOk] is unreachable *)
+Theorem C03_validate_establishes_doc_ok : forall pi VS F ES,
+  Vld.ProofsCommon.order_ok pi -> schemas_agree VS ES = true -> cost_schema_accepted ES = true ->
+  es_wf ES = true -> vschema_wf VS = true ->
+  validate_establishes_doc_ok pi VS F ES.
+Proof. exact validate_establishes_doc_ok_proved. Qed.
+
+(** the premise is exactly as strong as needed: [doc_ok_nodirs] itself yields such a Q *)
 Theorem C03_invariant_from_doc_ok : forall ES D E n rt,
   ExeA.ArgSpec.s_root_type ES (ExeA.ArgData.op_kind D) = Some rt ->
   ExeA.ArgSpec.doc_ok_nodirs ES D E (ExeA.ArgModel.default_fuel D) n = true ->
   exists Q, Q rt (ExeA.ArgData.op_sels D) /\ fields_defined_on ES D E Q /\ merge_sound ES D E Q.
 Proof. exact invariant_from_doc_ok. Qed.
 
-(** ... and every request whose text keeps positions below line 2^24 /
-    column 2^32 ([text_positions_small]) gets a response: no broken contract is left *)
-Theorem C03_pipeline_response_partial : forall pi VS F ES bs opname raw W,
+(** ... and every request whose text keeps positions below line 2^24 / column 2^32
+    ([text_positions_small]) gets a response: no broken contract is left *)
+Theorem C03_pipeline_response : forall pi VS F ES bs opname raw W,
   Vld.ProofsCommon.order_ok pi ->
   schema_accepted ES = true -> cost_schema_accepted ES = true -> schemas_agree VS ES = true ->
-  validate_establishes_invariant pi VS F ES -> text_positions_small bs ->
+  es_wf ES = true -> vschema_wf VS = true -> text_positions_small bs ->
   is_response (pipeline_order pi VS F ES bs opname raw W) = true.
-Proof. exact pipeline_response_if_invariant. Qed.
+Proof. exact pipeline_response. Qed.
 
 (** ** the cost rule inside the composition.
     [parse_validate_cost pi VS F ES bs opname raw r max] (Pipe/CostCompose.v) is
@@ -364,9 +392,11 @@ Print Assumptions C03_validated_root_type_exists.
 Print Assumptions C03_parsed_field_positions_distinct.
 Print Assumptions C03_argument_coercion_never_unsupported.
 Print Assumptions C03_accepted_acyclic.
-Print Assumptions C03_validate_establishes_doc_ok_partial.
+Print Assumptions C03_parsed_set_positions_distinct.
+Print Assumptions C03_validate_establishes_invariant.
+Print Assumptions C03_validate_establishes_doc_ok.
 Print Assumptions C03_invariant_from_doc_ok.
-Print Assumptions C03_pipeline_response_partial.
+Print Assumptions C03_pipeline_response.
 Print Assumptions C03_validate_with_cost_never_crashes.
 Print Assumptions C03_subscribe_never_crashes.
 Print Assumptions C03_async_resolvers_same_data.
